@@ -44,7 +44,7 @@ var c13States = []struct{ w, s string }{
 func genC13(rt *rapid.T) c13Case {
 	ws := pick(rt, "ws", c13States)
 	return c13Case{Worker: ws.w, State: ws.s, Cap: pick(rt, "cap", []int{0, 1, 7, 100}), Pre: rapid.IntRange(0, 20).Draw(rt, "pre"),
-		DelayU: rapid.IntRange(0, 3000).Draw(rt, "delay")}
+		DelayU: pick(rt, "delayclass", []int{0, 1, 10, 100, 1000}) * rapid.IntRange(0, 3).Draw(rt, "delay")}
 }
 
 const c13Bound = 5 * time.Second
@@ -87,6 +87,9 @@ func execC13(c c13Case) Outcome {
 	defer os.RemoveAll(dir)
 	ctx, cancel := context.WithCancel(context.Background())
 	defer cancel()
+	if c.State == "wait_open" && c.DelayU < 0 {
+		cancel() // context already cancelled when the worker starts
+	}
 	npi := namedpipe.NewNamedPipeIngester(zap.NewNop().Sugar(), health.NewHealth())
 	var delivered int64 // callbacks / downstream sends / events observed
 	done := make(chan error, 1)
@@ -192,11 +195,15 @@ func execC13(c c13Case) Outcome {
 			}
 		}
 	}
-	time.Sleep(time.Duration(c.DelayU) * time.Microsecond)
-	select {
-	case err := <-done:
-		return fail("worker returned (%v) before cancellation in state %s", err, c.State)
-	default:
+	if c.DelayU > 0 {
+		time.Sleep(time.Duration(c.DelayU) * time.Microsecond)
+	}
+	if c.DelayU >= 0 {
+		select {
+		case err := <-done:
+			return fail("worker returned (%v) before cancellation in state %s", err, c.State)
+		default:
+		}
 	}
 	t0 := time.Now()
 	cancel()
@@ -348,6 +355,35 @@ func TestC13_Enum(t *testing.T) {
 						continue
 					}
 					if !y(c13Case{Worker: ws.w, State: ws.s, Cap: cp, Pre: pre, DelayU: 500}) {
+						return
+					}
+				}
+			}
+		}
+		// cancellation that arrives at once / before the worker even starts
+		for _, w := range []string{"namedpipe", "syslog", "auditlog"} {
+			for _, d := range []int{0, -1} {
+				for rep := 0; rep < 4; rep++ {
+					n++
+					if n%sn != si {
+						continue
+					}
+					if !y(c13Case{Worker: w, State: "wait_open", DelayU: d, Pre: rep}) {
+						return
+					}
+				}
+			}
+		}
+		// a worker that has been blocked for a long time (thorough): longer than
+		// any plausible internal timer
+		if thorough() {
+			for _, ws := range []struct{ w, s string }{{"syslog", "blocked_login"}, {"auditlog", "full_buffer"}, {"namedpipe", "idle_read"}, {"read", "idle_select"}} {
+				for _, d := range []int{1200000, 5600000} {
+					n++
+					if n%sn != si {
+						continue
+					}
+					if !y(c13Case{Worker: ws.w, State: ws.s, Cap: 1, Pre: 1, DelayU: d}) {
 						return
 					}
 				}
